@@ -779,10 +779,41 @@ def for_loop(ex, st, s, cx, o, spec):
     if isinstance(it, ast.Call) and isinstance(it.func, ast.Attribute) and it.func.attr == 'items' and not it.args:
         return cfg_items_loop(ex, st, s, cx, o, spec, it.func.value)
 
+    values_of_dict = False
+    if isinstance(it, ast.Call) and isinstance(it.func, ast.Attribute) and it.func.attr == 'values' and not it.args:
+        values_of_dict = True
+        src = it.func.value
+
     def g(s2, coll):
         t = coll.ty
         if t.kind == 'opt' and T.is_reflike(t.args[0]):
             coll = SV(t.args[0], coll.z)
+            t = coll.ty
+        if values_of_dict:
+            if t.kind != 'dict':
+                raise VCError(f'.values() of {t!r} outside subset: {ast.unparse(it)}')
+            # iteration over the values of a dict: over an enumeration `ord` of them, one entry per key (keyat / pos are
+            # inverse to each other on the keys); the contract sees the list of values as `seq`
+            kty, vty = t.args
+            ks, vs_ = T.sort_of(kty), T.sort_of(vty)
+            n_ = ex.fresh_z(z3.IntSort(), 'dictlen')
+            ord_ = ex.fresh_z(z3.ArraySort(z3.IntSort(), vs_), 'valord')
+            ex.counter += 1
+            pos_ = z3.Function(f'keypos!{ex.counter}', ks, z3.IntSort())
+            keyat_ = z3.Function(f'keyat!{ex.counter}', z3.IntSort(), ks)
+            dom, val = ex.dict_dom(s2, coll), ex.dict_val(s2, coll)
+            kq, jq = z3.Const('k!dv', ks), z3.Int('j!dv')
+            s2 = s2.assume(n_ >= 0,
+                           z3.ForAll([kq], z3.Implies(z3.Select(dom, kq),
+                                                      z3.And(pos_(kq) >= 0, pos_(kq) < n_, keyat_(pos_(kq)) == kq,
+                                                             z3.Select(ord_, pos_(kq)) == z3.Select(val, kq))),
+                                     patterns=[z3.Select(dom, kq)]),
+                           z3.ForAll([jq], z3.Implies(z3.And(jq >= 0, jq < n_),
+                                                      z3.And(z3.Select(dom, keyat_(jq)), pos_(keyat_(jq)) == jq,
+                                                             z3.Select(ord_, jq) == z3.Select(val, keyat_(jq)))),
+                                     patterns=[z3.Select(ord_, jq)]))
+            s2, lst_ = ex.new_list(s2, T.lst(vty), n_, ord_, 'valorder')
+            coll = lst_
             t = coll.ty
         if t.kind == 'set':
             # iteration over a set: over an ARBITRARY enumeration `ord` of its elements (no order is assumed, so whatever
